@@ -153,14 +153,21 @@ type hsSide struct {
 	OnRemote   []byte
 	OnAuth     []byte
 	gotAuth    bool
+	// Pattern, when set, is used instead of the pattern the ConnData selects (the exported API
+	// takes pattern and ConnData independently)
+	Pattern *mailbox.HandshakePattern
 }
 
 func (s *hsSide) build(initiator bool) {
 	s.Data = mailbox.NewConnData(&keychain.PrivKeyECDH{PrivKey: s.Priv}, s.Remote, s.Passphrase, s.AuthData,
 		func(k *btcec.PublicKey) error { s.OnRemote = k.SerializeCompressed(); return nil },
 		func(d []byte) error { s.OnAuth = append([]byte(nil), d...); s.gotAuth = true; return nil })
+	pat := s.Data.HandshakePattern()
+	if s.Pattern != nil {
+		pat = *s.Pattern
+	}
 	s.Machine, s.NewErr = mailbox.NewBrontideMachine(&mailbox.BrontideMachineConfig{
-		Initiator: initiator, HandshakePattern: s.Data.HandshakePattern(), ConnData: s.Data,
+		Initiator: initiator, HandshakePattern: pat, ConnData: s.Data,
 		MinHandshakeVersion: s.Min, MaxHandshakeVersion: s.Max,
 	})
 }
